@@ -754,7 +754,10 @@ class HippoClient(BaseClientSessionManager):
             if self.session is None:
                 break
             for region in self.session.regions:
-                if not region.circuit.is_alive:
+                # Circuits that aren't marked alive yet still need their resends, the
+                # `UseCircuitCode` that opens a circuit is sent reliably before it's alive.
+                # Disconnecting clears anything that was pending, so dead circuits are no-ops.
+                if not region.circuit:
                     continue
                 region.circuit.resend_unacked()
             await asyncio.sleep(0.5)
